@@ -41,6 +41,13 @@ __all__ = [
 ]
 
 
+def _fill_zero(value: VariableValue, mask: torch.Tensor) -> VariableValue:
+    """Return `value` with zeros where `mask` is True (weights of weighted tensors are kept)."""
+    if isinstance(value, WeightedTensor):
+        return value.map(torch.masked_fill, mask, 0)
+    return value.masked_fill(mask, 0)
+
+
 class StateForkType(Enum):
     """
     The strategy used to cache forked values in :class:`.State`.
@@ -563,13 +570,14 @@ class State(MutableMapping):
                 assert (
                     old_v.shape == cur_v.shape
                 ), f"Bad shapes for {k}: {old_v.shape} != {cur_v.shape}"
-                if right_broadcasting:
-                    add_ndim = max(old_v.ndim - to_revert.ndim, 0)
-                    self._values[k] = old_v * unsqueeze_right(
-                        to_revert, ndim=add_ndim
-                    ) + cur_v * unsqueeze_right(to_keep, ndim=add_ndim)
-                else:
-                    self._values[k] = old_v * to_revert + cur_v * to_keep
+                # discarded entries are zeroed-out (not multiplied by 0) so that a non-finite
+                # value in the discarded part can not leak into the kept part (inf * 0 = nan)
+                add_ndim = (
+                    max(old_v.ndim - to_revert.ndim, 0) if right_broadcasting else 0
+                )
+                self._values[k] = _fill_zero(
+                    old_v, unsqueeze_right(to_keep, ndim=add_ndim)
+                ) + _fill_zero(cur_v, unsqueeze_right(to_revert, ndim=add_ndim))
         self._last_fork = None
 
     def to_device(self, device: torch.device) -> None:
